@@ -90,7 +90,7 @@ def run(tier):
     common.build("plain")
     wd = common.workdir("c16")
     for cfgname in ("MC_WriterAuto.cfg", "MC_WriterAutoTight.cfg", "MC_WriterAutoBigMin.cfg"):
-        r = common.tlc("MC_WriterImpl", cfgname, workers=8, timeout=900)
+        r = common.tlc("MC_WriterImpl", cfgname if tier != "thorough" else common.cfg_variant(cfgname, wd, MaxLen=8), workers=8, timeout=1800, heap="8g")
         ck.require_ok("WriterImpl/" + cfgname, r); ck.add_tlc("WriterImpl/" + cfgname + " (SegmentationIndependence, MinMax, Tiling)", r)
     # ---- contents
     contents = []
